@@ -9,6 +9,7 @@ nodes: list of [relpath, kind, payload] in creation order
     kind 'dir'   payload = None
     kind 'link'  payload = link target (relative to the directory of the link)
     kind 'raw'   payload = text (a file that is neither suite nor case)
+    kind 'badsuite' payload = text (a suite file that starts with bytes that are not UTF-8: cannot be read)
 
 model(nodes, root_arg) -> Model (see class).
 """
@@ -321,7 +322,7 @@ def model(nodes, root_arg):
             return m
         m.features.add('root:dir-arg')
         k = k2
-    if k != 'suite':
+    if k not in ('suite', 'badsuite'):
         m.out_of_domain.append('root is not a suite file')
         return m
     visited = {vfs.resolve(root_spelled): 1}
@@ -331,6 +332,11 @@ def model(nodes, root_arg):
         real = vfs.resolve(spelled)
         node = SuiteNode(spelled, real)
         m.depth = max(m.depth, depth)
+        if vfs.e[real][0] == 'badsuite':
+            # "INVALID_SUITE  There was an error reading the test suite."
+            m.invalid.append('unreadable-suite:%s' % spelled)
+            m.features.add('unreadable-suite')
+            return node
         ps = parse_suite_text(vfs.e[real][1])
         node.has_preprocessor = ps.has_preprocessor
         for d in ps.doubt:
@@ -430,11 +436,11 @@ def model(nodes, root_arg):
                     m.out_of_domain.append('glob matches a directory that is no suite: ' + p)
                 return None
             m.features.add('dirref')
-            if kq != 'suite':
+            if kq not in ('suite', 'badsuite'):
                 m.out_of_domain.append('default suite file is a %s: %s' % (kq, q))
                 return None
             return q
-        if k != 'suite':
+        if k not in ('suite', 'badsuite'):
             m.out_of_domain.append('listed as suite but is a %s: %s' % (k, p))
             return None
         return p
